@@ -33,7 +33,7 @@ func init() {
 		Rule:        "Roster histories (vectors of 5..300 keys in two batches so the 2-byte counter crosses 127/128/255/256, 1-4 vectors, re-commits, empty commits, non-contiguous vector index, malformed ids/keys, unauthorised callers) compared in order through nodes()/replicasNumbers() and a raw scan of the pending prefix; signature matrices for REP 1..4 assembled from {honest, honest+noise, honest+junk lengths, one member repeated, malleated (r,n-s) twin, one short + duplicate, non-members, members of another vector, another message, short vector, missing vector} judged against an independent crypto/ecdsa oracle counting distinct members per vector; submitObjectPut with valid/expired/wrong-network meta maps. distinct = (operation, class, REP vector / size class, outcome).",
 		Assumptions: append(tb, "positive control (must accept) only for matrices whose entries are all 64 bytes long"),
 		Batches:     tier(96, 768), Chunk: 4,
-		Floors: []string{"roster-crossing-256", "second-batch-for-a-vector", "re-commit", "empty-commit", "commit-with-null-replicas-and-pending-roster", "accepted-honest-matrix", "refused:duplicate-member", "refused:non-member", "refused:other-vector-member", "refused:other-message", "refused:short-vector", "refused:missing-vector", "refused:malleated-twin", "submitObjectPut-ok", "submitObjectPut-refused"},
+		Floors: []string{"roster-crossing-256", "second-batch-for-a-vector", "re-commit", "empty-commit", "commit-with-null-replicas-and-pending-roster", "accepted-honest-matrix", "refused:duplicate-member", "refused:non-member", "refused:other-vector-member", "defect-in-one-vector-only", "signatures-of-an-earlier-vector's-members", "refused:other-message", "refused:short-vector", "refused:missing-vector", "refused:malleated-twin", "submitObjectPut-ok", "submitObjectPut-refused"},
 		Run:    runC14,
 	})
 }
